@@ -7,7 +7,7 @@ from fractions import Fraction
 
 from vsym import sym as S, terms as T
 
-EQS = ["S", "fin", "g", "g2", "h"]
+EQS = ["S", "fin", "g", "g2", "h", "k", "c"]      # the two constants are requested as well (a constant changed by settings is itself reported)
 BASE_POINTS2 = [[0.0, 4.0], [4.0, 0.0]]
 BASE_POINTS = [[0.0, 1.0], [2.0, 3.0], [4.0, 2.0], [50.0, 2.0]]
 
